@@ -1,1 +1,191 @@
-/-! # C01 — property theorems (to be filled) -/
+import PraatModel.Quote
+import PraatModel.Save
+import PraatModel.Lemmas.Strip
+
+/-!
+# C01 — field-level codecs of the TextGrid text formats (the part of the round trip that is about ALL labels)
+
+Whole-file round trip is tied to the code by the correspondence run (emitted text and parse result compared byte
+for byte with the Lean emitters / parsers); what is proved here holds for every label, of any length:
+quote doubling is inverted by both readers, for labels full of quotes, runs of quotes at either end, newlines.
+-/
+namespace C01
+
+theorem unescape_escape (s : List Char) : unescapeL (escapeL s) = s := by
+  induction s with
+  | nil => simp [escapeL, unescapeL]
+  | cons c cs ih =>
+    by_cases hc : c = q
+    · simp [escapeL, hc, unescapeL, ih]
+    · cases h : escapeL cs with
+      | nil => simp [escapeL, hc, unescapeL, h] at *; exact ih
+      | cons d ds => simp [escapeL, hc, unescapeL, h] at *; exact ih
+
+/-- invariant of the `_fetchTextRow` machine while it reads a doubled-quote text: it is either between runs or
+inside a run of even length -/
+def EvenState : Option Nat → Prop
+  | none => True
+  | some k => k % 2 = 0
+
+/-- **praatio's text reader on a written label**: for EVERY label `s` (quotes, runs of quotes at either end, newlines,
+the empty label), reading `escape s ++ '"' ++ r ++ …` with `r` any character but a quote stops exactly after the
+closing quote -/
+theorem scanText_written (s : List Char) (r : Char) (rest : List Char) (hr : r ≠ q)
+    (st : Option Nat) (hst : EvenState st) (n : Nat) :
+    scanText st n (escapeL s ++ q :: r :: rest) = .ok (n + (escapeL s).length + 1) := by
+  induction s generalizing st n with
+  | nil =>
+    cases st with
+    | none => simp [escapeL, scanText, hr]
+    | some k =>
+      simp only [EvenState] at hst
+      have : (k + 1) % 2 = 1 := by omega
+      simp [escapeL, scanText, hr, this]
+  | cons c cs ih =>
+    by_cases hc : c = q
+    · subst hc
+      cases st with
+      | none =>
+        simp only [escapeL, if_true, List.cons_append, scanText]
+        rw [ih (some 2) (by simp [EvenState]) (n + 1 + 1)]
+        simp only [List.length_cons]; congr 1; omega
+      | some k =>
+        simp only [EvenState] at hst
+        simp only [escapeL, if_true, List.cons_append, scanText]
+        rw [ih (some (k + 1 + 1)) (by simp only [EvenState]; omega) (n + 1 + 1)]
+        simp only [List.length_cons]; congr 1; omega
+    · cases st with
+      | none =>
+        simp only [escapeL, hc, if_false, List.cons_append, scanText]
+        rw [ih none trivial (n + 1)]
+        simp only [List.length_cons]; congr 1; omega
+      | some k =>
+        simp only [EvenState] at hst
+        have : ¬ k % 2 = 1 := by omega
+        simp only [escapeL, hc, if_false, List.cons_append, scanText, this]
+        rw [ih none trivial (n + 1)]
+        simp only [List.length_cons]; congr 1; omega
+
+/-- the independent (spec) reader's text token recovers every label -/
+theorem specText_written (s : List Char) (r : Char) (rest : List Char) (hr : r ≠ q) :
+    specText (escapeL s ++ q :: r :: rest) = some (s, r :: rest) := by
+  induction s with
+  | nil => simp [escapeL, specText, hr]
+  | cons c cs ih =>
+    by_cases hc : c = q
+    · subst hc
+      simp only [escapeL, if_true, List.cons_append, specText]
+      rw [ih]; rfl
+    · simp only [escapeL, hc, if_false, List.cons_append]
+      unfold specText
+      simp only [hc, if_false, ih, Option.map_some]
+
+theorem specText_written_eof (s : List Char) : specText (escapeL s ++ [q]) = some (s, []) := by
+  induction s with
+  | nil => simp [escapeL, specText]
+  | cons c cs ih =>
+    by_cases hc : c = q
+    · subst hc
+      simp only [escapeL, if_true, List.cons_append, specText]
+      rw [ih]; rfl
+    · simp only [escapeL, hc, if_false, List.cons_append]
+      unfold specText
+      simp only [hc, if_false, ih, Option.map_some]
+
+theorem q_not_space : pyIsSpace q = false := by decide
+
+theorem escapeL_ne_nil (a : Char) (as : List Char) : escapeL (a :: as) ≠ [] := by
+  by_cases h : a = q <;> simp [escapeL, h]
+
+theorem getLast?_cons_ne {β : Type} (x : β) {l : List β} (h : l ≠ []) : (x :: l).getLast? = l.getLast? := by
+  cases l with
+  | nil => exact absurd rfl h
+  | cons y ys => rw [List.getLast?_cons_cons]
+
+theorem escapeL_getLast? (l : List Char) : (escapeL l).getLast? = l.getLast? := by
+  induction l with
+  | nil => rfl
+  | cons a as ih =>
+    cases as with
+    | nil =>
+      by_cases ha : a = q
+      · subst ha; simp [escapeL]
+      · simp [escapeL, ha]
+    | cons b bs =>
+      have hne := escapeL_ne_nil b bs
+      rw [List.getLast?_cons_cons, ← ih]
+      by_cases ha : a = q
+      · rw [show escapeL (a :: b :: bs) = q :: q :: escapeL (b :: bs) by simp [escapeL, ha]]
+        rw [getLast?_cons_ne _ (by simp), getLast?_cons_ne _ hne]
+      · rw [show escapeL (a :: b :: bs) = a :: escapeL (b :: bs) by simp [escapeL, ha]]
+        rw [getLast?_cons_ne _ hne]
+
+theorem noEdge_escape (s : List Char) (h : NoEdgeSpace s) : NoEdgeSpace (escapeL s) := by
+  constructor
+  · intro c rest hc
+    cases s with
+    | nil => simp [escapeL] at hc
+    | cons a as =>
+      by_cases ha : a = q
+      · simp only [escapeL, ha, if_true, List.cons.injEq] at hc; rw [← hc.1]; exact q_not_space
+      · simp only [escapeL, ha, if_false, List.cons.injEq] at hc; rw [← hc.1]; exact h.1 a as rfl
+  · intro c hc
+    rw [escapeL_getLast?] at hc
+    exact h.2 c hc
+
+/-- what `_fetchTextRow` makes of the characters between the outer quotes: `.strip()` then un-doubling gives back the
+label, for every stripped label -/
+theorem word_written (s : List Char) (h : NoEdgeSpace s) : unescapeL (stripList (escapeL s)) = s := by
+  rw [stripList_of_noEdge _ (noEdge_escape s h), unescape_escape]
+
+/-! ## numbers: the decision part of `numToStr` -/
+
+/-- what the proofs need from CPython's `repr` / `"%d"` / `float()` / `int()` (DESIGN §2.2; sampled on every run) -/
+structure NumCodec where
+  reprOf : Int → String
+  intOf : Int → String
+  parse : String → Option Int
+  trunc : Int → Int
+  parse_repr : ∀ x, parse (reprOf x) = some x
+  parse_int : ∀ x, parse (intOf x) = some (trunc x)
+
+/-- a written time is read back as itself, or as the integer it is within 1e-14 (relative) of — and only then -/
+theorem numToStr_decision (C : NumCodec) (x : Int) :
+    C.parse (numToStr C.trunc C.reprOf C.intOf x) = some x ∨
+    (Tm.close14 x (C.trunc x) = true ∧ C.parse (numToStr C.trunc C.reprOf C.intOf x) = some (C.trunc x)) := by
+  unfold numToStr
+  by_cases h : Tm.close14 x (C.trunc x) = true
+  · right; simp [h, C.parse_int]
+  · left; simp [h, C.parse_repr]
+
+/-- non-vacuity: a (unary) numeral system satisfies the codec laws, with `trunc = id` -/
+def unary (x : Int) : String := String.ofList ((if x < 0 then ['-'] else []) ++ List.replicate x.natAbs '1')
+def unaryParse (s : String) : Option Int :=
+  if s.toList.head? = some '-' then some (-((s.toList.length : Int) - 1)) else some (s.toList.length : Int)
+
+theorem unaryParse_unary (x : Int) : unaryParse (unary x) = some x := by
+  unfold unaryParse unary
+  rw [String.toList_ofList]
+  by_cases h : x < 0
+  · simp only [h, if_true, List.cons_append, List.nil_append, List.head?_cons, List.length_cons, List.length_replicate,
+      Option.some.injEq]
+    omega
+  · have hh : (List.replicate x.natAbs '1').head? ≠ some '-' := by
+      cases x.natAbs with
+      | zero => simp
+      | succ k => simp [List.replicate]
+    simp only [h, if_false, List.nil_append, hh, List.length_replicate, Option.some.injEq]
+    omega
+
+def natCodec : NumCodec where
+  reprOf := unary
+  intOf := unary
+  parse := unaryParse
+  trunc x := x
+  parse_repr := unaryParse_unary
+  parse_int := unaryParse_unary
+
+#guard (scanText none 0 ("a\"\"b\"\"\" \nrest".toList)).toOption == some 7
+#guard specText ("a\"\"b\"\"\" \nrest".toList) == some ("a\"b\"".toList, " \nrest".toList)
+
+end C01
